@@ -69,8 +69,8 @@ def explain(devs, ran, view, project, observe, ident, max_extra=40000):
                 return (e[1], g, sub)
         return None
 
-    # round 1: no decoration / one decoration; rounds 2, 3 (only for what is still unexplained): two / three decorations
-    for sizes in ((0, 1), (2,), (3,)):
+    # round 1: at most two decorations; round 2 (only for what is still unexplained): three decorations
+    for sizes in ((0, 1, 2), (3,)):
         need = {}
         for c in devs:
             ctx, gs, fs = view(c)
